@@ -7,6 +7,7 @@ pub mod c16;
 pub mod crash;
 pub mod hist;
 pub mod sched;
+pub mod selftest;
 
 pub fn run(name : &str, ctx : &Ctx, out : &mut Out) -> bool
 {
@@ -23,6 +24,7 @@ pub fn run(name : &str, ctx : &Ctx, out : &mut Out) -> bool
         "hist" => hist::histories(ctx, out),
         "c18_shortcut" => hist::shortcut(ctx, out),
         "replay" => hist::replay(ctx, out),
+        "memsys_selftest" => selftest::memsys_vs_real(ctx, out),
         "c17_contradiction" => hist::contradiction(ctx, out),
         "c10_clean_build" => hist::clean_build(ctx, out),
         "sched" => sched::schedules(ctx, out),
